@@ -62,6 +62,7 @@ type c14Ev struct {
 	ret      bool
 	inflight bool
 	mins     []zerolog.Level // the filter level of every destination when the event was logged
+	fin      int             // how the event is finished: 0 Msg, 1 Send, 2 Msgf, 3 MsgFunc
 }
 
 type c14Run struct {
@@ -71,6 +72,9 @@ type c14Run struct {
 	cur    map[int]*c14Ev
 	byID   map[string]*c14Ev
 	single bool
+	// noHandler: zerolog.ErrorHandler is nil (its documented "not set" state: the error is
+	// printed to stderr); what is left to check is that the logging calls return normally
+	noHandler bool
 }
 
 // eventOf finds the event that bytes handed to a destination belong to. Which goroutine
@@ -132,8 +136,14 @@ func (w c14Leveled) WriteLevel(l zerolog.Level, p []byte) (int, error) {
 
 func (c14World) Run(prop string, ch *zsim.Choices, trace bool) *RunResult {
 	r := &c14Run{ch: ch, cur: map[int]*c14Ev{}, byID: map[string]*c14Ev{}}
-	oldEH, oldTS := zerolog.ErrorHandler, zerolog.TimestampFunc
-	defer func() { zerolog.ErrorHandler, zerolog.TimestampFunc = oldEH, oldTS }()
+	oldEH, oldTS, oldErr := zerolog.ErrorHandler, zerolog.TimestampFunc, os.Stderr
+	defer func() {
+		zerolog.ErrorHandler, zerolog.TimestampFunc = oldEH, oldTS
+		if os.Stderr != oldErr {
+			os.Stderr.Close()
+			os.Stderr = oldErr
+		}
+	}()
 	summary := ""
 	var events []*c14Ev
 	main := func() {
@@ -171,6 +181,14 @@ func (c14World) Run(prop string, ch *zsim.Choices, trace bool) *RunResult {
 				zsim.Fail("C14.handler", "ErrorHandler called outside any logging call: %v", err)
 			}
 			ev.handler = append(ev.handler, err)
+		}
+		if ch.Chance(1, 8) {
+			r.noHandler = true
+			zerolog.ErrorHandler = nil
+			if dn, err := os.OpenFile(os.DevNull, os.O_WRONLY, 0); err == nil {
+				os.Stderr = dn
+			}
+			zsim.Probe("error_handler_nil")
 		}
 		s.ArmDraw([]string{"writer.go", "event.go"})
 		nd := 1 + ch.Weighted(2, 4, 4, 2)
@@ -239,6 +257,7 @@ func (c14World) Run(prop string, ch *zsim.Choices, trace bool) *RunResult {
 				ev := &c14Ev{id: fmt.Sprintf("ev%d", n), task: t}
 				ev.level = []zerolog.Level{zerolog.InfoLevel, zerolog.DebugLevel, zerolog.WarnLevel, zerolog.ErrorLevel, zerolog.TraceLevel, zerolog.NoLevel}[ch.Intn(6)]
 				ev.ops = genOps(ch, ch.Intn(3), 1, "f")
+				ev.fin = ch.Weighted(3, 2, 1, 1)
 				if ch.Chance(1, 6) {
 					ev.level = zerolog.PanicLevel
 					ev.panics = true
@@ -340,6 +359,9 @@ func (c14World) Run(prop string, ch *zsim.Choices, trace bool) *RunResult {
 		}
 		// ErrorHandler: once per failing event, with the first failing destination's error
 		for _, ev := range events {
+			if r.noHandler {
+				break
+			}
 			var want error
 			for i, d := range r.dsts {
 				if d.filter && ev.level < ev.mins[i] && !r.plain {
@@ -384,7 +406,7 @@ func emit14(lg *zerolog.Logger, ev *c14Ev) {
 			}
 		}()
 		zsim.Probe("panic_event")
-		applyEvent(lg.Panic().Str("id", ev.id), ev.ops).Msg("m")
+		finish14(applyEvent(lg.Panic().Str("id", ev.id), ev.ops), ev)
 		return
 	}
 	if ev.level == zerolog.NoLevel {
@@ -392,5 +414,20 @@ func emit14(lg *zerolog.Logger, ev *c14Ev) {
 	} else {
 		e = lg.WithLevel(ev.level)
 	}
-	applyEvent(e.Str("id", ev.id), ev.ops).Msg("m")
+	finish14(applyEvent(e.Str("id", ev.id), ev.ops), ev)
+}
+
+// finish14: every way of finishing an event ends in the same write and the same error
+// report (the message is the same in all four).
+func finish14(e *zerolog.Event, ev *c14Ev) {
+	switch ev.fin {
+	case 1:
+		e.Str("message", "m").Send()
+	case 2:
+		e.Msgf("%s", "m")
+	case 3:
+		e.MsgFunc(func() string { return "m" })
+	default:
+		e.Msg("m")
+	}
 }
